@@ -387,6 +387,27 @@ def _solver_options(fam_terms, time, ukind, k):
     return opts
 
 
+def h_sv_order_keyword(env):
+    """order keywords other than the two documented spellings: refused, or honoured with the meaning of their lower-case form"""
+    from tangelo.linq.helpers.circuits.statevector import StateVector
+    v = [0.5, 0.5j, -0.5, 0.5]          # not symmetric under exchanging the two qubits
+    ref = {}
+    for o in ("lsq_first", "msq_first"):
+        c = StateVector(v, order=o).initializing_circuit()
+        ref[o] = [R.C(x) for x in R.run_gates(c._gates, 2)]
+    for kw_ in ("LSQ_FIRST", "Lsq_first", "MSQ_FIRST", "lsq", "msq_first "):
+        try:
+            c = StateVector(v, order=kw_).initializing_circuit()
+        except Exception:       # noqa
+            env.check_true(True, f"order={kw_!r} refused")
+            continue
+        low = kw_.lower()
+        env.check_true(low in ref, f"order={kw_!r} accepted although it is not a documented keyword in any letter case")
+        if low in ref:
+            env.check_vec_eq_up_to_phase([R.C(x) for x in R.run_gates(c._gates, 2)], ref[low],
+                                         f"order={kw_!r} accepted: prepares the state of order={low!r}")
+
+
 def h_qpe(env, fam, k, m, ukind, canary=False):
     from tangelo.algorithms.projective.qpe import QPESolver
     name, terms_of, n_state, basis, time = next(f for f in families(k) if f[0] == fam)
@@ -591,6 +612,7 @@ def shapes(tier, seed):
         for order in ("msq_first", "lsq_first"):
             out.append(Shape(f"statevector/{nm}/{order}", h_statevector, dict(spec=spec, order=order), modules=MODS,
                              max_paths=32, group="statevector"))
+    out.append(Shape("statevector/order-keyword", h_sv_order_keyword, {}, modules=MODS, group="statevector"))
     out.append(Shape("canary/statevector/phase", h_statevector, dict(spec=(G, S_, S_), order="msq_first", canary=True), modules=MODS,
                      canary=True, max_paths=32, group="canary"))
     out.append(Shape("canary/statevector/phase-2q", h_statevector, dict(spec=(G, (G, c_(0), c_(4)), (G, c_(4), c_(0))), order="lsq_first", canary=True),
